@@ -880,7 +880,7 @@ func (m *Machine) sprintf(format string, args []value) value {
 	for i := 0; i < len(format); i++ {
 		c := format[i]
 		if c != '%' {
-			lit += string(c)
+			lit += format[i : i+1]
 			continue
 		}
 		i++
